@@ -42,14 +42,14 @@ extern "C" int __wrap__aes_self_tests(void)
 {
         g_aes_entries++;
         probe_outputs();
-        if (g_inject_fail) return 1;
+        if (g_inject_fail & 1) return 1; // the AES group reports a failure as 1
         return __real__aes_self_tests();
 }
 extern "C" int __wrap__sha_self_tests(void)
 {
         g_sha_entries++;
         probe_outputs();
-        if (g_inject_fail) return 1;
+        if (g_inject_fail & 2) return -1; // the SHA group reports a failure as -1 (fips/sha_self_tests.c)
         return __real__sha_self_tests();
 }
 
@@ -77,13 +77,13 @@ static Case from_json(const J &j)
 }
 static std::vector<ent::Entry> g_entries;
 
-static void set_state(int st)
+static void set_state(int st, uint64_t seed)
 {
         g_inject_fail = 0;
         switch (st) {
         case ST_FAILED: fips::set_state(1); break;
         case ST_PASSED: fips::set_state(0); break;
-        case ST_FRESH_FAIL: fips::set_state(2); g_inject_fail = 1; break;
+        case ST_FRESH_FAIL: fips::set_state(2); g_inject_fail = 1 + (int) (seed % 3); break; // failing group: 1 aes, 2 sha, 3 both
         case ST_FRESH_PASS: fips::set_state(2); break;
         case ST_WAIT_FAIL:
         case ST_WAIT_PASS: fips::set_state(3); break; // SELF_TEST_RUNNING: somebody else has claimed the run
@@ -124,7 +124,7 @@ static bool run(const Case &c, pbt::Ctx &ctx)
                 if (call.desc[i].kind == ent::OUT || call.desc[i].kind == ent::OBJ) snap.push_back(ent::bytes_of(call.desc[i].ptr, call.desc[i].size));
         for (int i = 0; i < call.nargs; i++)
                 if (call.desc[i].kind == ent::IN) A.set_readonly(call.desc[i].ptr);
-        set_state(c.state);
+        set_state(c.state, c.seed);
         g_cur = &call;
         g_snap = &snap;
         g_output_changed_before_selftest = false;
@@ -147,7 +147,14 @@ static bool run(const Case &c, pbt::Ctx &ctx)
         }
         g_cur = nullptr;
         g_snap = nullptr;
-        int status_after = (int) *status_ptr();
+        // the verdict must stick: a later isal_self_tests() (the injected failure is gone by then) reports the same verdict and does
+        // not run the self tests again
+        int injected = g_inject_fail, aes_first = g_aes_entries, sha_first = g_sha_entries, later_rc = -12345;
+        g_inject_fail = 0;
+        if (ok && (c.state == ST_FRESH_FAIL || c.state == ST_FRESH_PASS)) later_rc = isal_self_tests();
+        int aes_later = g_aes_entries - aes_first, sha_later = g_sha_entries - sha_first;
+        g_aes_entries = aes_first;
+        g_sha_entries = sha_first;
         fips::set_state(0);
         if (!ok) {
                 A.describe(fi);
@@ -201,8 +208,13 @@ static bool run(const Case &c, pbt::Ctx &ctx)
                 if (g_aes_entries != 1 || g_sha_entries > 1)
                         if (failx("selftests-not-run", "first call did not run the self tests exactly once (aes " + std::to_string(g_aes_entries) + ", sha " + std::to_string(g_sha_entries) + ")")) return false;
                 if (g_output_changed_before_selftest && failx("work-before-selftest", "an output byte changed before the self tests were entered")) return false;
-                int want_status = c.state == ST_FRESH_FAIL ? 1 : 0;
-                if (status_after != want_status && failx("verdict-not-published", "self-test status after the call is " + std::to_string(status_after))) return false;
+                int want_later = c.state == ST_FRESH_FAIL ? ISAL_CRYPTO_ERR_SELF_TEST : 0;
+                std::string grp = injected == 1 ? "aes" : injected == 2 ? "sha" : injected == 3 ? "aes+sha" : "no";
+                if (later_rc != want_later)
+                        if (failx("verdict-not-sticky", "after a first call with " + grp + " self-test group failing, a later isal_self_tests() returned " + std::to_string(later_rc) +
+                                                                " instead of " + std::to_string(want_later)))
+                                return false;
+                if ((aes_later || sha_later) && failx("selftests-run-again", "a later call ran the self tests again (" + grp + " group had failed)")) return false;
         }
         return true;
 }
